@@ -7,6 +7,7 @@ import (
 	"fmt"
 	"os"
 	"path/filepath"
+	"sort"
 	"strings"
 	"time"
 
@@ -239,7 +240,7 @@ func metaFilename(filename string) string {
 
 func (fs *filestore) Walk(ctx context.Context, bucket string, cb func(ctx context.Context, filename string, fInfo os.FileInfo) error) error {
 	root := filepath.Join(fs.gcsDir, bucket)
-	return filepath.Walk(root, func(path string, fInfo os.FileInfo, err error) error {
+	return walkInNameOrder(root, func(path string, fInfo os.FileInfo, err error) error {
 		if strings.HasSuffix(path, metaExtention) {
 			// Ignore metadata files
 			return nil
@@ -259,4 +260,53 @@ func (fs *filestore) Walk(ctx context.Context, bucket string, cb func(ctx contex
 		}
 		return nil
 	})
+}
+
+// walkInNameOrder is filepath.Walk, except that the entries of a directory are visited in the order
+// of the object names they stand for: a directory "foo" holds the names "foo/...", which sort after
+// a sibling "foo-bar". filepath.Walk would visit "foo" first and list names out of order.
+func walkInNameOrder(root string, fn filepath.WalkFunc) error {
+	info, err := os.Lstat(root)
+	if err != nil {
+		err = fn(root, nil, err)
+	} else {
+		err = walkDirInNameOrder(root, info, fn)
+	}
+	if err == filepath.SkipDir {
+		return nil
+	}
+	return err
+}
+
+func walkDirInNameOrder(path string, info os.FileInfo, fn filepath.WalkFunc) error {
+	if !info.IsDir() {
+		return fn(path, info, nil)
+	}
+	entries, err := os.ReadDir(path)
+	if err1 := fn(path, info, err); err != nil || err1 != nil {
+		return err1
+	}
+	nameKey := func(e os.DirEntry) string {
+		if e.IsDir() {
+			return e.Name() + "/"
+		}
+		return e.Name()
+	}
+	sort.Slice(entries, func(i, j int) bool { return nameKey(entries[i]) < nameKey(entries[j]) })
+	for _, e := range entries {
+		filename := filepath.Join(path, e.Name())
+		fileInfo, err := os.Lstat(filename)
+		if err != nil {
+			if err := fn(filename, fileInfo, err); err != nil && err != filepath.SkipDir {
+				return err
+			}
+			continue
+		}
+		if err := walkDirInNameOrder(filename, fileInfo, fn); err != nil {
+			if !fileInfo.IsDir() || err != filepath.SkipDir {
+				return err
+			}
+		}
+	}
+	return nil
 }
